@@ -211,14 +211,20 @@ struct World {
     for (const auto pid : Picts()) {
       if (oss->Ops()(pid) == nullptr) continue;
       const auto* src = SourceOf(pid);
-      if (src == nullptr || src->lastWriteSeq == 0) continue;
+      if (src == nullptr || src->lastWriteSeq == 0) continue;        // this pictogram's result was not written in this transition
       const auto before = lastCore.find(pid);
-      if (before == lastCore.end() || before->second == src->schema.CoreHash()) continue;   // no result was ever seen (nothing a child could be built from), or same formal content
+      const auto now = src->schema.CoreHash();
       for (const auto child : oss->Graph().ChildrenOf(pid)) {
         const auto* handle = oss->Src()(child);
         if (oss->Ops()(child) == nullptr || handle == nullptr || std::empty(*handle)) continue;
         const auto* rs = SourceOf(child);
-        if (rs != nullptr && rs->lastWriteSeq > src->lastWriteSeq) continue;                   // re-executed after the parent's write
+        if (rs == nullptr) continue;
+        // formal content this parent had when the child's stored result was (last) written: the parent's last write before the child's,
+        // else its content before the transition (kept across a discarded result); unknown -> nothing asserted
+        std::optional<ccl::change::Hash> asOfChild;
+        if (before != lastCore.end()) asOfChild = before->second;
+        if (rs->lastWriteSeq > 0) for (const auto& [seq, hash] : src->writeLog) if (seq < rs->lastWriteSeq) asOfChild = hash;
+        if (!asOfChild.has_value() || *asOfChild == now) continue;
         auto& f = fresh[child];
         if (f.seq < src->lastWriteSeq) f.seq = src->lastWriteSeq;
         f.how |= 4;
